@@ -16,4 +16,5 @@ INVARIANT NormOne
 INVARIANT QueriesAgree
 INVARIANT PermIsPerm
 INVARIANT PermSound
+INVARIANT InfoSound
 CHECK_DEADLOCK FALSE
